@@ -29,6 +29,31 @@ def asmStep (_ : Unit) (line : String) : Unit × List String :=
         | .ok b => "ok " ++ hexOut b
         | .err _ => "err"
         | .panic _ => "panic"
+    | ["cli", h] =>
+      -- dev/asm without -f hands the file to asm.Parse unchanged
+      match hexArg h with
+      | none => "bad-op"
+      | some src => match assemble src with
+        | .ok b => "ok " ++ hexOut b
+        | .err _ => "err"
+        | .panic _ => "err"   -- the process dies: exit status non-zero
+    | ["clif", h] =>
+      -- with -f the flag names of CATCH (third word) and CROAK (second word) are replaced by their numbers
+      match hexArg h with
+      | none => "bad-op"
+      | some src =>
+        let flagOf := fun (w : String) =>
+          if w = "alpha" then "8" else if w = "beta" then "9" else if w = "gamma" then "300" else w
+        let lines := (String.fromUTF8! (ByteArray.mk src.toArray)).splitOn "\n"
+        let lines := lines.map fun l =>
+          match words l with
+          | ["CATCH", n, fl, m] => " ".intercalate ["CATCH", n, flagOf fl, m]
+          | ["CROAK", fl, m] => " ".intercalate ["CROAK", flagOf fl, m]
+          | _ => l
+        match assemble (ascii ("\n".intercalate lines)) with
+        | .ok b => "ok " ++ hexOut b
+        | .err _ => "err"
+        | .panic _ => "err"
     | ["lex", h] =>
       match hexArg h with
       | none => "bad-op"
